@@ -245,3 +245,12 @@ def hexb(b: bytes) -> str:
 
 def case_hash(obj) -> str:
     return hashlib.sha256(json.dumps(obj, sort_keys=True, default=str).encode()).hexdigest()[:12]
+
+
+def quiet_progress():
+    """Silence rich progress bars of the library (they print to stdout)."""
+    try:
+        import sigpyproc.readers as r
+        r.track = lambda seq, **kw: seq
+    except Exception:  # noqa: BLE001
+        pass
